@@ -62,7 +62,7 @@ func genFull(r *hlib.Rand) fullInput {
 	nops := r.Range(3, 12)
 	afterFlush := false
 	type skey struct {
-		ty               int
+		ty              int
 		name, src, tags string
 	}
 	expIndex := map[int]int{int(gostatsd.COUNTER): 0, int(gostatsd.GAUGE): 1, int(gostatsd.SET): 2, int(gostatsd.TIMER): 3}
@@ -71,6 +71,16 @@ func genFull(r *hlib.Rand) fullInput {
 	pool := make([][]string, r.Range(1, 3)) // few tag sets per case, so that series collide
 	for i := range pool {
 		pool[i] = hlib.Pick(r, fullTagSets)
+	}
+	// the `bigmean` class of the full stream: timer values = a large integer base plus a small integer
+	// (|mean| / spread >= 1e3).  Everything stays in the exact regime the full stream compares with
+	// [same]: n * x^2 < 2^53 for the at most ~100 values of a series, so |base| <= 9e6.
+	bigBase := 0.0
+	if r.Chance(1, 4) {
+		bigBase = math.Floor(math.Pow(10, float64(r.Range(4, 6))) * (1 + r.Float()*8))
+		if r.Chance(1, 3) {
+			bigBase = -bigBase
+		}
 	}
 	for i := 0; i < nops; i++ {
 		switch x := r.Intn(10); {
@@ -97,6 +107,9 @@ func genFull(r *hlib.Rand) fullInput {
 					d.StrVal, d.Rate = hlib.Pick(r, members), math.Float64bits(1)
 				default:
 					d.Value = math.Float64bits(genExactValue(r))
+					if bigBase != 0 && gostatsd.MetricType(d.Type) == gostatsd.TIMER {
+						d.Value = math.Float64bits(bigBase + float64(r.Range(0, int(math.Max(1, math.Abs(bigBase)/1e3)))))
+					}
 				}
 				dps = append(dps, d)
 				k := skey{d.Type, d.Name, d.Source, strings.Join(d.Tags, ",")}
@@ -115,6 +128,9 @@ func genFull(r *hlib.Rand) fullInput {
 		now += int64(r.Intn(120))
 	}
 	in.Class = fmt.Sprintf("full/ops<=%d", (len(in.Points)+3)/4*4)
+	if bigBase != 0 {
+		in.Class = "full-bigmean" + in.Class[4:]
+	}
 	if in.Lexed {
 		in.Class += "/lexed"
 	}
